@@ -67,6 +67,7 @@ type Proc struct {
 	File     string     `json:"file,omitempty"`
 	Shell    string     `json:"shell,omitempty"`
 	WriteAPI bool       `json:"write_api,omitempty"` // gofunc: use the documented OutIP(p).Write()
+	ExecCmd  bool       `json:"exec_cmd,omitempty"`  // gofunc: the function runs the formatted command through the library's ExecCmd helper
 	DepIn    bool       `json:"dep_in,omitempty"`    // globber: NewFileGlobberDependent
 	DelayMS  int        `json:"delay_ms,omitempty"`  // recorder: pause before every receive (a slow consumer)
 }
